@@ -1,6 +1,7 @@
 package harness
 
 import (
+	"bytes"
 	"encoding/json"
 	"fmt"
 	"math/big"
@@ -403,9 +404,49 @@ func c06Derive(c *Ctx, net *Net, h *types.Transaction, outsider *keyInfo) *c06Va
 	other := net.Users[c.Draw("gen", len(net.Users))].Addr
 	reimb := len(f.GasPayerSigs) > 0
 	k := c.Draw("gen", 16)
+	if c.Draw("nonce2", 8) == 7 {
+		k = 100
+	}
 	lab := ""
 	sigOnly := false
 	switch k {
+	case 100:
+		// one signer signs the same content a second time with another nonce: other signature bytes, same
+		// signer. Honest tooling never does it (signing is deterministic); the bytes are not a repeat.
+		if len(f.Sigs) == 0 {
+			return nil
+		}
+		i := c.Draw("nonce2", len(f.Sigs))
+		var hash common.Hash
+		if reimb {
+			hash = types.MakeReimbursementTxSigner().Hash(h)
+		} else {
+			hash = types.MakeSigner().Hash(h)
+		}
+		pub, err := crypto.SigToPub(hash[:], f.Sigs[i])
+		if err != nil {
+			return nil
+		}
+		key := keyByAddress(crypto.PubkeyToAddress(*pub))
+		if key == nil {
+			return nil
+		}
+		var nb [32]byte
+		c.T.Bytes("nonce2", nb[:])
+		nb[31] |= 1
+		sig2 := SignWithNonce(hash[:], key, new(big.Int).SetBytes(nb[:]))
+		if sig2 == nil || bytes.Equal(sig2, f.Sigs[i]) {
+			return nil
+		}
+		if len(f.Sigs) > 1 {
+			j := (i + 1) % len(f.Sigs)
+			f.Sigs[j] = sig2
+			lab = "second-signature-of-one-signer-replacing-another"
+		} else {
+			f.Sigs = append(f.Sigs, sig2)
+			lab = "second-signature-of-one-signer-appended"
+		}
+		sigOnly = true
 	case 0:
 		f.Amount = new(big.Int).Add(f.Amount, big.NewInt(1+int64(c.Draw("gen", 1e6))))
 		lab = "tamper-amount"
